@@ -166,8 +166,8 @@ package statedb
 //@   atcall Load@1 requires @load-under-mu GH_held[addr(db.mu)]
 //@   atcall Store@1 requires @store-under-mu GH_held[addr(db.mu)]
 //@   ensures @unlocked !GH_held[addr(db.mu)]
-//@   ensures @one-store result == nil ==> GH_stores[addr(db.root)] == old(GH_stores[addr(db.root)]) + 1
-//@   ensures @no-store-on-error result != nil ==> GH_stores[addr(db.root)] == old(GH_stores[addr(db.root)])
+//@   ensures @one-store result == nil ==> GH_stores[addr(db.root)] == old(GH_stores)[addr(db.root)] + 1
+//@   ensures @no-store-on-error result != nil ==> GH_stores[addr(db.root)] == old(GH_stores)[addr(db.root)]
 
 // ---------------------------------------------------------------------------
 // Table initialisation (C19): registration and mark-done are copy-on-write. The table entry
@@ -195,3 +195,47 @@ package statedb
 //@   requires unwrapOf(txn).tableEntries[t.pos].init != nil
 //@   ensures @frame onlyFreshExcept(old(unwrapOf(txn).tableEntries[t.pos]))
 //@   ensures @cow fresh(unwrapOf(txn).tableEntries[t.pos].init)
+
+// Commit: exactly one store of the root, inside db.mu, after every index commit; watch
+// channels (index notifications and table-initialisation channels) are closed only after
+// that store; the table locks are released only after the store and the notifications.
+// A closed handle does nothing.
+//@ func (*writeTxnHandle).returnToPool
+//@   trusted
+//@   modifies H_statedb_writeTxnState_* H_statedb_writeTxnHandle_* E_*
+//@   ensures handle.writeTxnState == nil
+
+//@ func (*writeTxnHandle).Commit
+//@   property C02 C05 C06 C19 C10
+//@   flag nosafety
+//@   requires handle != nil
+//@   requires handle.writeTxnState != nil ==> handle.writeTxnState.db != nil && !GH_held[addr(handle.writeTxnState.db.mu)] && GH_smus[handle.writeTxnState.smus]
+//@   atcall (*Pointer).Load@1 requires @load-under-mu GH_held[addr(db.mu)]
+//@   atcall (*Pointer).Store@1 requires @store-under-mu GH_held[addr(db.mu)] && GH_stores[addr(db.root)] == old(GH_stores)[addr(db.root)]
+//@   atcall tableIndexTxnNotify.notify@* requires @notify-after-publish GH_stores[addr(db.root)] == old(GH_stores)[addr(db.root)] + 1
+//@   atcall SortableMutexes.Unlock@1 requires @unlock-after-publish GH_stores[addr(db.root)] == old(GH_stores)[addr(db.root)] + 1 && !GH_held[addr(db.mu)]
+//@   atcall close@* requires @init-close-after-publish GH_stores[addr(db.root)] == old(GH_stores)[addr(db.root)] + 1
+//@   ensures @closed handle.writeTxnState == nil
+//@   ensures @noop old(handle.writeTxnState) == nil ==> result == nil && unchanged(GH_stores) && unchanged(CH_closed) && unchanged(GH_held) && unchanged(GH_smus)
+//@   ensures @one-store old(handle.writeTxnState) != nil ==> GH_stores[addr(old(handle.writeTxnState.db).root)] == old(GH_stores[addr(handle.writeTxnState.db.root)]) + 1
+//@   ensures @released old(handle.writeTxnState) != nil ==> !GH_smus[old(handle.writeTxnState.smus)] && !GH_held[addr(old(handle.writeTxnState.db).mu)]
+
+// Abort: releases the table locks and drops the private clones; it stores no root, closes
+// no channel and touches the root mutex not at all. A closed handle does nothing.
+//@ func (*writeTxnHandle).Abort
+//@   property C02 C06 C05
+//@   flag nosafety
+//@   flag noclose
+//@   requires handle != nil
+//@   requires handle.writeTxnState != nil ==> handle.writeTxnState.db != nil && GH_smus[handle.writeTxnState.smus]
+//@   ensures @closed handle.writeTxnState == nil
+//@   ensures @no-store unchanged(GH_stores) && unchanged(GH_held)
+//@   ensures @released old(handle.writeTxnState) != nil ==> !GH_smus[old(handle.writeTxnState.smus)]
+//@   ensures @noop old(handle.writeTxnState) == nil ==> unchanged(GH_smus)
+
+// Registering a delete tracker (Changes) happens inside a transaction that may still be
+// aborted: it must not close any channel (it used to notify the committed tracker tree).
+//@ func (*writeTxnState).addDeleteTracker
+//@   property C02 C06
+//@   flag nosafety
+//@   flag noclose
